@@ -103,3 +103,16 @@ package repl
 // session knows about the saved settings is exactly what it recorded then.
 //@   count-calls updateConfigFile
 //@   ensures printer-settings-always-recorded: (!contains(key, ":") && hasprefix(key, "*print-")) ==> $ncall_updateConfigFile == 1
+
+// C20: the restart decoder takes a record of the history / stash file only when the line reader handed it
+// over as a complete line (terminated by a newline, no error): the bytes that come back together with the
+// end of the file are the torn tail of a write that a crash cut short - they are dropped, never remembered
+// as the most recent form.
+//@ func repl.(*History).Load
+//@   property C20
+//@   on-store forms#2 only-complete-records: err == nil
+//@   on-store forms#1 starts-empty: len(now) == 0
+//@ func repl.(*Stash).LoadExpanded
+//@   property C20
+//@   on-store forms#2 only-complete-records: err == nil
+//@   on-store forms#1 starts-empty: len(now) == 0
